@@ -264,6 +264,10 @@ def run(ck, ctx):
                         rows[lo if lo < 128 else lo - 256] = v[0] if v else None
         ck.ob("C08.4", "set_cc", rows == {-1: 4, 0: 2, 1: 1} and cmp_ok, "(result as i16).cmp(&0): Less/Equal/Greater -> %s (ISA: n=100, z=010, p=001)" % rows, "src/sim.rs:%s" % sc.line)
     psr_checks(ck, F)
+    ck.include("C06", ctx, "C08.6", {"C06.2", "C06.3"}, "every step decodes the fetched word: decode must be the ISA's")
+    ck.include("C09", ctx, "C08.7", {"C09.1", "C09.3", "C09.4"}, "access-control exceptions are part of the ISA step (guard bounds, contexts, RTI privilege)")
+    ck.include("C10", ctx, "C08.8", None, "trap/interrupt entry and RTI are shared with C10")
+    ck.include("C15", ctx, "C08.9", None, "the ALU operates on Word values")
     ck.assume("data values (that val1 + val2 is the right sum) are Word::add etc. (C15); device I/O content is not decided")
     ck.assume("interrupt entry and RTI details are decided under C10; privilege under C09")
 
